@@ -17,11 +17,6 @@ theorem print_framing (o : Opts) (r : Route) (fmt : Bytes → Bytes) (v : V) :
   · next s h => exact ⟨_, rfl, Or.inr ⟨h, s, rfl, rfl⟩⟩
   · exact ⟨_, rfl, Or.inl rfl⟩
 
-theorem spaces_ws (n : Nat) : (spaces n).all isWs = true := by
-  induction n with
-  | zero => rfl
-  | succ n ih => simpa [spaces, isWs] using ih
-
 /-- `print_read`. For every value, every option set and every printing route, the reference
 RFC 8259 reader (any whitespace in gaps, strict strings, duplicates kept) applied to the JSON text
 the printer writes returns `canon o r fmt v`: the value after the route's preparation (duplicate keys
@@ -52,6 +47,23 @@ theorem print_read (o : Opts) (r : Route) (fmt : Bytes → Bytes)
     cases r <;> simp only [Opts.cfg] <;> first | exact hfmt l hl | (split <;> first | exact hl | exact hfmt l hl)
   · exact wf_prep o r v hv
   · exact hw
+
+/-- `print_read_value`: the value read back is the route's prepared value itself — same structure,
+identical strings and keys — with number tokens related by whatever relation `R` the number
+re-spelling guarantees (`R (fmt l) l` for RFC 8259 tokens `l`; for "denote the same double" this is
+property C10's theorem about `format_number_jq_compat`, taken here as the hypothesis `hR`; under
+`--preserve-input` on the lazy routes `fmt` is the identity and only reflexivity of `R` is used). -/
+theorem print_read_value (R : Bytes → Bytes → Prop) (o : Opts) (r : Route) (fmt : Bytes → Bytes)
+    (hfmt : ∀ l, validNum l = true → validNum (fmt l) = true)
+    (hR : ∀ l, validNum l = true → R (fmt l) l) (hrefl : ∀ l, R l l)
+    (v : V) (hv : v.wf = true) (w : Bytes) (hw : w.all isWs = true) :
+    ∃ u, read (body o r fmt v ++ w) = .ok u ∧ SameUpTo R u (o.prep r v) := by
+  refine ⟨_, print_read o r fmt hfmt v hv w hw, ?_⟩
+  unfold canon
+  apply sameUpTo_norm_mapNum
+  · intro l hl
+    cases r <;> simp only [Opts.cfg] <;> first | exact hR l hl | (split <;> first | exact hrefl l | exact hR l hl)
+  · exact wf_prep o r v hv
 
 /-- the output as framed on stdout (newline terminator) reads back: `print` for the default framing -/
 theorem print_read_line (o : Opts) (r : Route) (fmt : Bytes → Bytes)
